@@ -206,6 +206,27 @@ def F23():
         assert cs.t(bytes(range(1, 13))).b == 0x08070605, (comp, cs.t(bytes(range(1, 13))))
 
 
+def F24():
+    cs = cstruct()
+    cs.load("struct t { uint8 n; uint8 d[n]; uint8 a:3; uint8 b:5; };")  # raised TypeError
+    assert cs.t(b"\x01\x02\xff").b == 0x1F
+
+
+def F25():
+    a, b = _both("struct t { uint16 x:4; uint8 a:2; uint8 b:2; uint32 c; };", bytes(range(1, 13)), align=True)
+    assert a == b, (a, b)  # compiled reader read c from offset 3
+
+
+def F26():
+    cs = cstruct()
+    cs.load("struct t { int8 a:4; int8 b:4; };")
+    try:
+        out = cs.t(a=1, b=0x13).dumps()
+    except Exception:  # noqa: BLE001
+        return
+    raise AssertionError(f"too wide bit-field value silently dumped as {out!r}")
+
+
 ALL = {k: v for k, v in globals().items() if k.startswith("F") and callable(v)}
 
 if __name__ == "__main__":
